@@ -512,15 +512,23 @@ def part_cache(ck, thorough, tlc_results):
             hist = st[-1][1]["hist"]
             probes.append((fl, hist))
     gen = tlc_results["cache_gen"]
+    gen1 = tlc_results["cache_gen1"]
     sim = tlc_results["cache_sim"]
-    for g in (gen, sim):
+    for g in (gen, gen1, sim):
         if g.error:
             raise vf.Infra("TLC DnsCache generation: " + g.error)
         if g.violated:
             raise vf.Infra("DnsCache.tla generation run violates " + g.violated)
     ck.states += gen.distinct
     ck.transitions += gen.generated
+    ck.states += gen1.distinct
+    ck.transitions += gen1.generated
     seqs = tlc_json_prints(gen)
+    over = tlc_json_prints(gen1)
+    if len(over) < 1000:
+        raise vf.Infra("cache overwrite generator produced too few sequences (%d)" % len(over))
+    ck.note("cache: %d single-key overwrite histories of 4 operations" % len(over))
+    seqs += over
     walks = tlc_json_prints(sim)
     seqs.sort(key=lambda s: json.dumps(s, sort_keys=True))
     walks.sort(key=lambda s: json.dumps(s, sort_keys=True))
@@ -657,6 +665,11 @@ def run(ck):
                         dump_trace=os.path.join(ck.work, "cex_%s.json" % fl))
     m, c = cache_mc(ck, "cache_gen", 3, mq, view=False, emit="EmitGet")
     jobs["cache_gen"] = dict(module_path=m, cfg_path=c, workers=4, lib_dirs=[SPECDIR], timeout=900)
+    # overwrite histories: every sequence of 4 operations on ONE key (two letter cases of its name in the thorough tier)
+    # that ends in a get - an entry replaced while it is still live, by a positive or negative answer with a shorter or
+    # longer TTL, then read on either side of both deadlines
+    m, c = cache_mc(ck, "cache_gen1", 4, mq[:2] if thorough else mq[:1], view=False, emit="EmitGet")
+    jobs["cache_gen1"] = dict(module_path=m, cfg_path=c, workers=4, lib_dirs=[SPECDIR], timeout=900)
     depth = 10 if thorough else 8
     m, c = cache_mc(ck, "cache_sim", depth, QUESTIONS, view=False, emit="Emit", advances=(1, 2, 3))
     jobs["cache_sim"] = dict(module_path=m, cfg_path=c, workers=2, lib_dirs=[SPECDIR], timeout=900,
